@@ -28,7 +28,7 @@ func init() {
 		"strings.Split":                   mStringsSplit,
 		"strings.Replace":                 mStringsReplace,
 		"strings.ReplaceAll":              func(ex *Exec, a []Val) Val { return mStringsReplace(ex, []Val{a[0], a[1], a[2], cint(-1, 64, true)}) },
-		"strings.Contains":                func(ex *Exec, a []Val) Val { return Bool{C: ex.indexOf(a[0].(Str), a[1].(Str), 0) >= 0} },
+		"strings.Contains":                mStringsContains,
 		"strings.Index":                   func(ex *Exec, a []Val) Val { return goInt(ex.indexOf(a[0].(Str), a[1].(Str), 0)) },
 		"strings.IndexByte":               func(ex *Exec, a []Val) Val { return goInt(ex.indexOf(a[0].(Str), Str{B: []Int{a[1].(Int)}}, 0)) },
 		"strings.HasPrefix":               mStringsHasPrefix,
@@ -177,6 +177,44 @@ func (ex *Exec) indexOf(s Str, pat Str, from int) int {
 		}
 	}
 	return -1
+}
+
+// strings.Contains; on a formatted string a concrete pattern without digits or
+// minus cannot overlap a decimal segment, so the byte runs are searched one by one.
+func mStringsContains(ex *Exec, args []Val) Val {
+	s, pat := args[0].(Str), args[1].(Str)
+	if !s.hasRope() {
+		return Bool{C: ex.indexOf(s, pat, 0) >= 0}
+	}
+	p, ok := pat.conc()
+	if !ok || len(p) == 0 {
+		unsupported("substring search on a formatted (rope) string")
+	}
+	for i := 0; i < len(p); i++ {
+		if (p[i] >= '0' && p[i] <= '9') || p[i] == '-' {
+			unsupported("numeric substring search on a formatted (rope) string")
+		}
+	}
+	var run []Int
+	found := false
+	flush := func() {
+		if !found && len(run) >= len(p) && ex.indexOf(Str{B: run}, pat, 0) >= 0 {
+			found = true
+		}
+		run = nil
+	}
+	for _, b := range s.B {
+		switch b.W {
+		case wOpaque:
+			unsupported("substring search on an opaque formatted string")
+		case wDec:
+			flush()
+		default:
+			run = append(run, b)
+		}
+	}
+	flush()
+	return Bool{C: found}
 }
 
 func mStringsSplit(ex *Exec, args []Val) Val {
